@@ -32,6 +32,9 @@ Guards (what keeps the oracle from demanding more than the property):
   (counted, not a violation); only a *difference* between cache states is reported.
 * documented compile errors (CompileError etc.) are part of the compared signature: the
   same error class on both members of a key group is agreement.
+* perturbed statements may be ill-typed (column order swapped in INSERT..SELECT, CAST type
+  changed inside a CASE); a TypeError/ValueError from a result processor while fetching is
+  recorded as the outcome and compared across cache states like rows are.
 """
 from __future__ import annotations
 
@@ -306,6 +309,12 @@ def _execute(env, engine, spy, spec, stmt, params, is_orm_entity):
         outcome = ("dbapi-error", type(e).__name__, type(e.orig).__name__)
     except sa_exc.SQLAlchemyError as e:
         outcome = ("sa-error", type(e).__name__)
+    except (TypeError, ValueError) as e:
+        # an ill-typed *perturbed* statement (a str stored in a Date column by a swapped INSERT..SELECT, a
+        # CASE mixing NUMERIC and text ...) makes SQLite hand a value of the wrong type to a result
+        # processor.  That is the workload's doing; it is an outcome like any other and must simply be the
+        # same under every cache state.
+        outcome = ("result-processing-error", type(e).__name__)
     stream = [(e.sql, repr(e.params)) for e in spy.since(mark, kinds=("execute", "executemany"))]
     return outcome, stream
 
